@@ -441,13 +441,144 @@ func probing(c *ev.Check) {
 		for k := 0; k < 3; k++ {
 			n := got[ep(k)]
 			enabled := has(s.servers, k) && !s.dis(k)
-			if !enabled && n >= 3 {
-				c.Violation("probing/probes-continue", fmt.Sprintf("after %s endpoint %d (disabled or removed) was probed %d times in 150 ms (interval 5 ms)", s, k, n), s.String())
+			// a stopped loop can still deliver the probe in flight, the token buffered in its channel and one racing tick -
+			// whatever the timing; a live loop delivers about 30 in the window
+			if !enabled && n > 3 {
+				c.Violation("probing/probes-continue", fmt.Sprintf("after %s endpoint %d (disabled or removed) was probed %d times in 150 ms (interval 5 ms; a stopped loop delivers at most 3)", s, k, n), s.String())
 			}
 			if enabled && n == 0 {
-				c.Violation("probing/probes-missing", fmt.Sprintf("after %s the enabled endpoint %d was not probed within 150 ms (interval 5 ms)", s, k), s.String())
+				// not a short wall-clock verdict: wait generously for the first probe before saying there is none
+				deadline := time.Now().Add(20 * time.Second)
+				for time.Now().Before(deadline) && n == 0 {
+					time.Sleep(5 * time.Millisecond)
+					mu.Lock()
+					n = count[ep(k)]
+					mu.Unlock()
+				}
+				if n == 0 {
+					c.Violation("probing/probes-missing", fmt.Sprintf("after %s the enabled endpoint %d was not probed within 20 s (interval 5 ms)", s, k), s.String())
+				}
 			}
 		}
+	}
+}
+
+// triggered probes: besides its ticker an endpoint's probe loop is fed by TriggerHealthCheck (the proxy's error path
+// calls it when a request to the endpoint fails). A disabled or removed endpoint must not be probed through that door
+// either. Deterministic by construction: with a one-hour interval only the initial "probe at once" token exists; once
+// that probe has been seen nothing is buffered and no ticker will fire, so after the disable NOTHING can probe a
+// correctly stopped loop - any probe counted afterwards was sent to a disabled endpoint.
+func triggeredProbes(c *ev.Check) {
+	type step struct {
+		spec   specv
+		settle bool // wait for the probe(s) of (re-)enabled endpoints before going on
+	}
+	e01 := func(dis int) specv { return specv{servers: []int{0, 1}, disabled: dis} }
+	scenarios := []struct {
+		name   string
+		create specv
+		steps  []specv
+		victim int
+	}{
+		{"enabled, then disabled", e01(-1), []specv{e01(0)}, 0},
+		{"created disabled", e01(0), nil, 0},
+		{"disabled, enabled, disabled again", e01(-1), []specv{e01(0), e01(-1), e01(0)}, 0},
+		{"added disabled by an update", specv{servers: []int{1}, disabled: -1}, []specv{e01(0)}, 0},
+		{"enabled, then both disabled", e01(-1), []specv{{servers: []int{0, 1}, disabled: 0, also: []int{1}}}, 1},
+		{"enabled, then removed from the server list", e01(-1), []specv{{servers: []int{1}, disabled: -1}}, 0},
+	}
+	for _, sc := range scenarios {
+		var mu sync.Mutex
+		count := map[string]int{}
+		check := func(e *clusters.EndpointInfo) bool {
+			mu.Lock()
+			count[e.Endpoint]++
+			mu.Unlock()
+			e.UpdateStatus(true, "", "")
+			return true
+		}
+		get := func(k int) int {
+			mu.Lock()
+			defer mu.Unlock()
+			return count[ep(k)]
+		}
+		// every endpoint that is enabled right now has been probed at least `floor` times: nothing is left buffered
+		settle := func(sp specv, floor map[int]int) bool {
+			deadline := time.Now().Add(20 * time.Second)
+			for time.Now().Before(deadline) {
+				ok := true
+				for _, k := range sp.servers {
+					if !sp.dis(k) && get(k) <= floor[k] {
+						ok = false
+					}
+				}
+				if ok {
+					return true
+				}
+				time.Sleep(2 * time.Millisecond)
+			}
+			return false
+		}
+		boot, err := clusters.CreateClusterInfo(specv{servers: []int{2}, disabled: -1}.object(), check, "", nil)
+		if err != nil {
+			c.EngineError("triggered-probes: " + err.Error())
+			return
+		}
+		boot.VerifSetHealthCheckInterval(time.Hour)
+		cur := sc.create
+		floor := map[int]int{}
+		if err := boot.Sync(cur.object()); err != nil {
+			c.EngineError("triggered-probes: " + err.Error())
+			boot.Stop()
+			return
+		}
+		okRig := settle(cur, floor)
+		var victimInfo *clusters.EndpointInfo
+		if info, ok := boot.Endpoints.Load(ep(sc.victim)); ok {
+			victimInfo = info
+		}
+		for _, st := range sc.steps {
+			for _, k := range cur.servers {
+				floor[k] = get(k)
+			}
+			prev := cur
+			cur = st
+			if err := boot.Sync(cur.object()); err != nil {
+				c.EngineError("triggered-probes: " + err.Error())
+				okRig = false
+				break
+			}
+			// endpoints that were just (re-)enabled probe at once: wait for that probe so nothing stays buffered
+			re := specv{servers: nil, disabled: -1}
+			for _, k := range cur.servers {
+				if !cur.dis(k) && (prev.dis(k) || !has(prev.servers, k)) {
+					re.servers = append(re.servers, k)
+				}
+			}
+			okRig = okRig && settle(re, floor)
+			if info, ok := boot.Endpoints.Load(ep(sc.victim)); ok {
+				victimInfo = info
+			}
+		}
+		if !okRig || victimInfo == nil {
+			c.EngineError("triggered-probes [" + sc.name + "]: the rig's endpoints were not probed after being enabled; nothing can be concluded")
+			boot.Stop()
+			continue
+		}
+		// give a loop that was stopped while idle a moment to be gone, then knock on the door
+		time.Sleep(20 * time.Millisecond)
+		before := get(sc.victim)
+		for i := 0; i < 3; i++ {
+			victimInfo.TriggerHealthCheck()
+			time.Sleep(40 * time.Millisecond)
+		}
+		after := get(sc.victim)
+		c.Add("triggered_probe_scenarios", 1)
+		c.Outcome("triggered", fmt.Sprintf("%s/%d", sc.name, after-before))
+		if after != before {
+			c.Violation("probing/disabled-endpoint-probed-on-trigger", fmt.Sprintf("[%s] endpoint %d is disabled/removed, yet %d health probe(s) were sent to it after TriggerHealthCheck (the proxy's error path calls it when a request to the endpoint fails)", sc.name, sc.victim, after-before), sc.name)
+		}
+		boot.Stop()
 	}
 }
 
@@ -605,6 +736,7 @@ func main() {
 	tasks = append(tasks, xstate.Tasks(c, specB(), c.Pick(4, 5), 16)...)
 	tasks = append(tasks, ev.Task{Name: "through-the-handler-chain", Run: func() { throughChain(c) }})
 	tasks = append(tasks, ev.Task{Name: "probing", Run: func() { probing(c) }})
+	tasks = append(tasks, ev.Task{Name: "triggered-probes", Run: func() { triggeredProbes(c) }})
 	tasks = append(tasks, ev.Task{Name: "stress", Run: func() { stress(c, time.Duration(c.Pick(1500, 6000))*time.Millisecond) }})
 	bounds := []int{0, 1, 2}
 	if c.Thorough() {
